@@ -235,7 +235,7 @@ pub fn reg_of(isa: usize, snap: &Snapshot2, which_heap: bool) -> (u64, bool) {
 }
 
 pub fn run_text(isa: usize, text: &str, heap: &[u64]) -> Result<emu::EmuResult, String> {
-    let cfg = EmuConfig { heap_bytes: 1 << 16, max_instructions: 200_000, heap_check_every: 0, footprint_check: false, stop_label: Some("verif_stop_".into()), init_heap: Some(heap.to_vec()) };
+    let cfg = EmuConfig { heap_bytes: 1 << 16, max_instructions: 200_000, heap_check_every: 0, footprint_check: false, enforce_shape: true, stop_label: Some("verif_stop_".into()), init_heap: Some(heap.to_vec()) };
     match isa {
         0 => Ok(emu::x86::run(&emu::x86::parse(text)?, &[], &cfg)),
         1 => Ok(emu::a64::run(&emu::a64::parse(text)?, &[], &cfg)),
